@@ -65,7 +65,7 @@ class ObjectPool(Generic[T]):
         obj = self.get()
         try:
             yield obj
-        except Exception:
+        except BaseException:
             if not destroy_on_fail:
                 self.release(obj)
             else:
